@@ -52,6 +52,16 @@ type c05Step struct {
 // created with LIMIT 2 and the plain history already exceeds that.
 func c05HistoryFor(cfg c05Config) []c05Step {
 	h := c05History()
+	if strings.Contains(cfg.Filter, "where") {
+		// the steps on id r carry no field: under a field filter their verdict is another question
+		var h2 []c05Step
+		for _, st := range h {
+			if st.ID != "r" {
+				h2 = append(h2, st)
+			}
+		}
+		h = h2
+	}
 	if cfg.Filter == "where" || cfg.Filter == "whereeval" {
 		flip := []c05Step{
 			{Cmd: w("SET fk a FIELD speed 5000 POINT 0.1 0.1"), Verb: "set", ID: "a", Prev: "inside", New: "outside"},
@@ -119,6 +129,12 @@ func c05History() []c05Step {
 		{Cmd: w("SET fk c2 EX 20 FIELD speed 7 POINT 0.1 0.1"), Verb: "set", ID: "c2", Prev: "absent", New: "inside"},
 		{Cmd: w("SET fk c3 EX 20 FIELD speed 7 POINT 0.1 0"), Verb: "set", ID: "c3", Prev: "absent", New: "inside"},
 		{Cmd: []string{"@ADVANCE", "21"}, Verb: "expire", ID: "c", IDs: []string{"c", "c2", "c3"}, Prev: "inside", New: "gone"},
+		// the same position set again, without fields or a deadline: still a report
+		{Cmd: w("SET fk r POINT 0.1 0"), Verb: "set", ID: "r", Prev: "absent", New: "inside"},
+		{Cmd: w("SET fk r POINT 0.1 0"), Verb: "set", ID: "r", Prev: "inside", New: "inside"},
+		{Cmd: w("SET fk r POINT 0 3"), Verb: "set", ID: "r", Prev: "inside", New: "outside"},
+		{Cmd: w("SET fk r POINT 0 3"), Verb: "set", ID: "r", Prev: "outside", New: "outside"},
+		{Cmd: w("DEL fk r"), Verb: "del", ID: "r", Prev: "outside", New: "gone"},
 		// an id that holds a string (no position) and then a point outside the area: nothing was inside before
 		{Cmd: w("SET fk s FIELD speed 7 STRING hello"), Verb: "set", ID: "s", Prev: "absent", New: "outside", Loose: true},
 		set("s", right, "absent", "outside", false),
@@ -334,6 +350,12 @@ func c05RunConfig(job *Job, res *Result, cfg c05Config) {
 		live := x.Dial(in.Addr)
 		live.Send(respCmd(full...))
 		vsched.Quiesce()
+		// a pub/sub connection that never subscribed to the fence's channel unsubscribes from it
+		foreign := x.Dial(in.Addr)
+		foreign.Send(respCmd("SUBSCRIBE", "some-other-channel"))
+		foreign.Send(respCmd("UNSUBSCRIBE", "fch"))
+		foreign.Send(respCmd("PUNSUBSCRIBE", "f*"))
+		vsched.Quiesce()
 		recvPayloads(sub)
 		recvPayloads(live)
 		hookSeen := 0
@@ -369,7 +391,7 @@ func c05RunConfig(job *Job, res *Result, cfg c05Config) {
 						if len(cur.A) > 0 && !strings.Contains(raw, `"object":`+cur.A[0].S) {
 							viol("payload:object", fmt.Sprintf("step %d %v: %s message does not carry the current geometry %s: %s", si, st.Cmd, recv, cur.A[0].S, vclip(raw, 300)))
 						}
-						if !strings.Contains(raw, `"fields":{"speed":`) {
+						if !strings.Contains(raw, `"fields":{"speed":`) && strings.Contains(strings.Join(st.Cmd, " "), " speed ") {
 							viol("payload:fields", fmt.Sprintf("step %d %v: %s message lacks the object's fields: %s", si, st.Cmd, recv, vclip(raw, 300)))
 						}
 					}
